@@ -115,6 +115,14 @@ func BuildArena(dst string) error {
 			os.Symlink("dstreal", "/w/dstlink")
 		}
 	}
+	switch d {
+	case "/w/rel/current":
+		// a "current release" link: the real directory lies one level deeper than its name
+		os.MkdirAll("/w/rel/releases/v1", 0o755)
+		if _, err := os.Lstat(d); err != nil {
+			os.Symlink("releases/v1", d)
+		}
+	}
 	near := func(p, s string) error {
 		if strings.HasPrefix(d, "/w/lone/") {
 			return nil // this destination is the only child of its parent, which is the only child of its own
